@@ -793,6 +793,11 @@ struct Child
                 volatile int* p = new int[2];
                 delete[] p;
                 w.key("v").num(p[1]);
+            } else if (s.op == "uninit_selftest") {
+                // harness self test for the memcheck pass: a branch on an uninitialised heap word
+                volatile int* p = (volatile int*)malloc(8);
+                w.key("v").num(p[1] == 12345 ? 1 : 0);
+                free((void*)p);
             } else {
                 fprintf(stderr, "driver: unknown op %s\n", s.op.c_str());
                 _exit(4);
@@ -827,6 +832,10 @@ static std::string slurp_fd(int fd, size_t cap)
     return out;
 }
 
+#ifdef VERIF_COV
+extern "C" void __gcov_dump(void);
+#endif
+
 int main(int argc, char** argv)
 {
     work_dir = argc > 1 ? argv[1] : "/tmp";
@@ -859,6 +868,9 @@ int main(int argc, char** argv)
             ch.out = fdopen(ofd, "w");
             ch.run(c);
             fflush(ch.out);
+#ifdef VERIF_COV
+            __gcov_dump();
+#endif
             _exit(0);
         }
         int status = 0;
@@ -871,6 +883,7 @@ int main(int argc, char** argv)
         vj::W w;
         w.obj();
         w.key("id").str(c.id);
+        w.key("pid").num((long long)pid);
         if (WIFSIGNALED(status)) {
             int sg = WTERMSIG(status);
             w.key("status").str(sg == SIGALRM ? "timeout" : "signal");
